@@ -14,7 +14,7 @@ TRUST = ('Trusted: TLC/SANY/CommunityModules, the JVM, CPython, the projection c
 CLAIMED = {
     'C20': ('TLA+ spec DayWindows.tla: TLC enumerates all entry lists and checks pipeline-refines-contract; '
             'every enumerated case replayed into the real functions',
-            'Exhaustive within bounds: every list of <=3 entries over days 0..M / ranges / 6 malformed kinds is model-checked '
+            'Exhaustive within bounds: every list of <=3 entries over days 0..M / ranges / 10 malformed kinds, and every list of <=3 proper ranges on a longer calendar (0..8, thorough 0..9: bridging ranges), is model-checked '
             '(implementation-shaped parse/expand pipeline refines the declarative union) and replayed into '
             'find_days_to_exclude + expand_time_windows on calendar bases straddling leap/year/month ends.',
             'Calendar rendering via datetime.date; only the listed malformed kinds are explored. ' + TRUST,
@@ -40,7 +40,8 @@ CLAIMED['C08'] = (
     'DESIGN.md section 4 C08')
 
 _MM = ('MMTrace.tla (contract over MMDefs.tla) batch-validates traces recorded from the real searches (fresh objects, shared data '
-       'objects, decoy interference, post-search perturbation of caller-owned objects); numeric facts from the independent oracle; '
+       'and shared eligibility objects, data objects used before, decoy interference, post-search perturbation of caller-owned objects; '
+       'panels with missing / NaN / negative / zero-total geos, other response units, long test periods); numeric facts from the independent oracle; '
        'design-level models MMImplX/MMImplG checked by TLC; hook events of both loops replayed against those models '
        '(MMStepTrace / MMStepTraceG, drift notes)')
 _MMNOTE = ('Oracle (numpy/scipy, never imports the library) supplies ranks of score tuples, budget verdicts, optimistic budget '
@@ -64,14 +65,14 @@ CLAIMED['C13'] = (_MM, 'Greedy results must lie in the feasible set over admitte
 CLAIMED['C16'] = ('TLA+ spec Eligibility.tla (validation as a sequence of checks refining the declarative Accept; seven classes from the row triple); '
                   'all tables <=3 rows x 8 triples, single defects and all ordered subsets enumerated by TLC and replayed into GeoEligibility',
                   'Exhaustive within bounds: accept/reject and all eleven assignment sets for every table, every ordered subset (incl. empty), '
-                  'IDs and indices, four ID presentations.', 'Only the listed structural defects are explored. ' + TRUST, 'DESIGN.md section 4 C16')
+                  'IDs and indices, four ID presentations, value columns in any order.', 'Only the listed structural defects are explored. ' + TRUST, 'DESIGN.md section 4 C16')
 CLAIMED['C17'] = ('TLA+ spec Params.tla (sixteen per-field checks in code order refining the documented domain); boundary grid enumerated by TLC '
                   'and replayed into TBRMMDesignParameters with math.nextafter neighbours',
                   'Every (field, grid point) with others valid, every pair of faults in two fields, defaults and equality cases; success XOR '
                   'ValueError exactly as the spec says.', 'Equal-ended ranges and int-for-float are left open (either outcome); bool / numpy '
                   'scalars outside the grid. ' + TRUST, 'DESIGN.md section 4 C17')
 
-CLAIMED['C15'] = ('TLA+ spec DataPanel.tla (Pivot/Means/Order/Shares/Reconcile/SetGeoIndex/Aggregate pipeline refining the declarative contract); '
+CLAIMED['C15'] = ('TLA+ spec DataPanel.tla (Pivot/Means/Order/Shares/Reconcile/Restrict/SetGeoIndex/Aggregate pipeline refining the declarative contract; responses of either sign; the searcher\'s cut to the most recent dates); '
                   'frames, eligibility tables and geo-index orders enumerated/sampled inside TLA+ and replayed into TBRMMData under many presentations',
                   'All frames over <=3 geos x <=3 dates with values 0..2 (hash-sampled residue class per seed in quick, all in thorough), tables over '
                   'the seven row types in relation subset/equal/exceeding, all legal and illegal geo-index orders; rows, columns, cells, shares as '
@@ -90,14 +91,14 @@ CLAIMED['C11'] = ('TLA+ spec MMCount.tla: closed-form count = |generated pairs| 
 CLAIMED['C19'] = ('TLA+ specs Screening.tla (fit() pipeline as a state machine with nondeterministic detectors, model-checked) and ScreeningTrace.tla '
                   '(batch trace validation of recorded fit() runs, one verdict with clause name per trace)',
                   'Design level: all detector answers over small frames keep ScreenedExact / AnalysisExact / CallerFrameUnchanged; binding: '
-                  'hundreds (quick) to thousands (thorough) of real fits under shuffled rows, custom column names and labels, judged in TLA+; '
+                  'hundreds (quick) to thousands (thorough) of real fits under shuffled rows, custom column names and labels, Categorical label columns, a second metric column, unbalanced panels (a group without rows on a date), judged in TLA+; '
                   'seeded design errors and corrupted trace fields are re-checked on every run.',
                   'Which geos are noisy / which dates are outliers is not specified (numeric); frames have date as a column; integer responses so '
                   'totals are exact. ' + TRUST, 'DESIGN.md section 4 C19')
 
 CLAIMED['C10'] = ('TLA+ spec MMApi.tla generates call histories over the 12 public calls of one object and predicts each answer (fresh / last search / error); '
                   'histories replayed into real objects, answers, parameter object and input frame compared after every call; MMImplG ParamsUntouched at design level',
-                  'All histories of length 3 on several instances plus TLC-simulated histories of length 8-10; every answer must equal the answer of the same '
+                  'All histories of length 3 on several instances (one per parameter shape, incl. must-include geo + n_geos_max + budget; half of the histories on a data object that was used before) plus TLC-simulated histories of length 8-10; every answer must equal the answer of the same '
                   'call made first on a fresh object; retrieval must return the last search\'s list; asdict(parameters) and the caller\'s frame must be '
                   'unchanged after every call. The pre-repair model variants still expose D2 / D3.',
                   'design_within_constraints() is not among the calls the property lists; exact comparison of projected answers. ' + TRUST,
@@ -106,10 +107,10 @@ CLAIMED['C12'] = ('TLA+ spec MMPresent.tla decides the memo invariant over prese
                   'renamings, power-of-two scaling of responses and budget) on results recorded from the real searches',
                   'Each abstract instance is run under 8-10 presentations; results are projected back (geo numbers, verdicts, rounded correlation, '
                   'value-class ids of impact-based quantities after undoing the scale) and must equal the first presentation\'s answer clause by clause.',
-                  'Generic position and tie-free instances only (a tie-break is not a presentation dependence). ' + TRUST, 'DESIGN.md section 4 C12')
+                  'Generic position and tie-free instances only (a tie-break is not a presentation dependence), plus twin-geo panels compared across ID dtype and row order only. ' + TRUST, 'DESIGN.md section 4 C12')
 
 CLAIMED['C06'] = ('TLA+ spec TBRModel.tla (exact rational OLS / Kerman eq. 5 posterior; aggregate-fit-select-per-day pipeline refining the closed form; '
-                  'design-side tbrfit identity) model-checked; hash-sampled enumerated cases replayed into TBR / TBRMMDiagnostics.tbrfit under six layouts',
+                  'design-side tbrfit identity) model-checked; hash-sampled enumerated cases replayed into TBR / TBRMMDiagnostics.tbrfit under six layouts and declared semantics (column names, group / period codes); the same contract evaluated in unbounded integers (compared with TLC on every emitted case) for pre-periods of 60-500 dates',
                   'All integer data sets of the enumerated shapes (n_pre 3..5, values 0..3, with/without cooldown) satisfy the refinement invariants; '
                   'sampled cases are rendered as frames (one geo per group, split totals, shuffled rows, unassigned geos / periods, both cooldown settings) '
                   'and df, loc, scale^2 per analysed day, summary identities for all level/tails/threshold/rescale combinations and the design-side fit '
@@ -126,7 +127,7 @@ CLAIMED['C07'] = ('TLA+ specs IROASModel.tla (scenario test, fixed / variable br
                   'and IROASHistory.tla (all call histories of summary(random_state) on one / fresh objects, memo invariant), model-checked; cases and histories replayed into TBRiROAS.summary',
                   'Fixed-cost: every report column compared with exact rationals for enumerated data sets, both cooldown settings, levels, tails, thresholds; '
                   'variable-cost: label, ordering, determinism over all 512 three-call histories, equivariance under power-of-two scaling of cost and response '
-                  '(including 1/64, which exposes a careless order-of-magnitude test); scenario label decided exactly on integer costs.',
+                  '(including 1/64, which exposes a careless order-of-magnitude test, and cost units of 2^36); scenario label decided exactly on integer costs and independent of the campaign spend; frames under declared column names / codes.',
                   'The statistical correctness of the simulated percentiles is not specified; scipy quantiles trusted. ' + TRUST, 'DESIGN.md section 4 C07')
 CLAIMED['C05'] = ('TLA+ spec ImpactModel.tla: one operator PostScaleSq shown equal (exact rationals) to the analysis-side posterior variance, the day loop and the design-side tbrfit; '
                   'required impact with PLANTED rational quantiles checked for calibration, linear scaling, shift invariance and monotonicity in r^2; replayed into TBRMMDiagnostics and tbr.TBR',
